@@ -616,8 +616,25 @@ func c19(c *core.Ctx) {
 			if len(ovs) == 0 {
 				continue
 			}
+			// a call of the per-file generator (the function that renders the stub templates), directly or through
+			// a step function of the plugin
+			var leadsToGen func(f *ssa.Function, depth int) bool
+			leadsToGen = func(f *ssa.Function, depth int) bool {
+				if f == nil || f.Blocks == nil || depth > 2 {
+					return false
+				}
+				if f == gen {
+					return true
+				}
+				for _, h := range core.HelperCallsOf(f) {
+					if h.Callee != nil && h.Callee != f && core.PkgIs(h.Callee, genPkg) && leadsToGen(h.Callee, depth+1) {
+						return true
+					}
+				}
+				return false
+			}
 			gens := core.CallsIn(fn, func(_ *ssa.Call, ci core.CallInfo) bool {
-				if ci.Static == nil || !core.PkgIs(ci.Static, genPkg) {
+				if ci.Static == nil || !core.PkgIs(ci.Static, genPkg) || ci.Static == fn {
 					return false
 				}
 				for _, pp := range ci.Static.Params {
@@ -625,7 +642,7 @@ func c19(c *core.Ctx) {
 						return true
 					}
 				}
-				return false
+				return leadsToGen(ci.Static, 0)
 			})
 			if len(gens) == 0 {
 				continue
